@@ -260,7 +260,8 @@ def _report(mod, pid, tier, seed, cfgs, results, errors, wall, nproc):
     lines = []
     violations = []
     known_hits = []
-    os.makedirs(os.path.join(VERIF, 'replays'), exist_ok=True)
+    RDIR = os.environ.get('VERIF_REPLAY_DIR', os.path.join(VERIF, 'replays'))
+    os.makedirs(RDIR, exist_ok=True)
     seen_keys = set()
     for c in reproduced:
         key = '%s|%s' % (c['config'], c['check'])
@@ -279,7 +280,7 @@ def _report(mod, pid, tier, seed, cfgs, results, errors, wall, nproc):
             continue
         seen_keys.add(key)
         n = len(violations)
-        path = os.path.join(VERIF, 'replays', '%s-%d.json' % (pid, n))
+        path = os.path.join(RDIR, '%s-%d.json' % (pid, n))
         with open(path, 'w') as f:
             json.dump({'property': pid, 'module': mod.__name__, 'config': c['config'], 'check': c['check'],
                        'note': c.get('note'), 'assignment': c['assignment'],
@@ -357,8 +358,9 @@ def _report(mod, pid, tier, seed, cfgs, results, errors, wall, nproc):
         'wall_s': round(wall, 2),
         'violations': len(violations),
     }
-    os.makedirs(os.path.join(VERIF, 'evidence'), exist_ok=True)
-    with open(os.path.join(VERIF, 'evidence', '%s.json' % pid), 'w') as f:
+    EDIR = os.environ.get('VERIF_EVIDENCE_DIR', os.path.join(VERIF, 'evidence'))
+    os.makedirs(EDIR, exist_ok=True)
+    with open(os.path.join(EDIR, '%s.json' % pid), 'w') as f:
         json.dump(evidence, f, indent=1, default=str)
 
     for ln in lines:
